@@ -375,3 +375,126 @@ def run_label_guards(chk, F, rid="R-LABELGUARD"):
         visit(fn["body"], [])
     if n < 4:
         raise AnalysisBroken("only %d label() calls with a document field found in the XML writer" % n)
+
+
+# ---------------------------------------------------------------------------------------------- label text unchanged
+_STR_MUTATORS = ("erase", "replace", "insert", "append", "assign", "resize", "pop_back", "push_back", "clear",
+                 "operator+=", "operator=", "remove_prefix", "remove_suffix", "swap")
+
+
+def run_textedit(chk, F, rid="R-TEXTEDIT"):
+    """The text of a label is what expression_t::str() printed.  XMLWriter::label may shorten it only by removing the
+    neutral conjunct `1 && ` that invariants are stored with - i.e. under a test that this very text sits at position
+    0.  A test that finds it *somewhere* (`find(..) != npos`) cuts the head off unrelated labels (`n == 1 && x >= 2`)."""
+    from ..inline import sites_with_conditions, strip
+    chk.rule(rid, "XMLWriter::label changes its text argument only under a prefix test of that argument (substr(0,n) "
+                  "== lit, compare(0,n,lit) == 0, rfind(lit,0) == 0, find(lit) == 0, starts_with(lit)) and removes "
+                  "exactly the tested prefix")
+    fn = normalize_fn(F.fn(XW + "::label"), F, stop=ANCHORS)
+    tparams = [p_["name"] for p_ in fn["params"] if "string" in (p_.get("ct") or p_.get("t") or "") and
+               "char" not in (p_.get("t") or "").replace("basic_string<char>", "")]
+    consts = {}
+    for d in walk(fn["body"]):
+        if d.get("k") == "decl":
+            for v in d.get("vars", []):
+                lit = [x.get("v") for x in walk(v.get("init") or {}) if x.get("k") == "str"]
+                if len(lit) == 1 and v.get("id") is not None:
+                    consts[v["id"]] = lit[0]
+
+    def literal(e):
+        e = strip(e)
+        if isinstance(e, dict) and e.get("k") == "str":
+            return e.get("v")
+        if isinstance(e, dict) and e.get("k") == "ref" and e.get("id") in consts:
+            return consts[e["id"]]
+        if isinstance(e, dict) and e.get("k") == "construct" and len(e.get("args", [])) == 1:
+            return literal(e["args"][0])
+        return None
+
+    def number(e):
+        e = strip(e)
+        if isinstance(e, dict) and e.get("k") == "int":
+            return e.get("v")
+        if isinstance(e, dict) and e.get("k") == "call" and e.get("name") in ("size", "length") and \
+                literal(e.get("recv")) is not None:
+            return len(literal(e["recv"]))
+        if isinstance(e, dict) and e.get("k") == "call" and e.get("name") == "strlen" and e.get("args") and \
+                literal(e["args"][0]) is not None:
+            return len(literal(e["args"][0]))
+        return None
+
+    def on_text(e, var):
+        e = strip(e)
+        return isinstance(e, dict) and e.get("k") == "ref" and e.get("name") == var
+
+    def prefix_test(c, var):
+        """length of the literal prefix that condition c (being true) establishes at position 0 of var, else None"""
+        c = strip(c)
+        if not isinstance(c, dict):
+            return None
+        sides = None
+        if c.get("k") == "bin" and c.get("op") == "==":
+            sides = (c["lhs"], c["rhs"])
+        elif c.get("k") == "call" and c.get("ck") == "op" and c.get("op") == "==":
+            a = ([c["recv"]] if c.get("recv") is not None else []) + list(c.get("args", []))
+            sides = tuple(a[:2]) if len(a) >= 2 else None
+        if sides:
+            for x, y in (sides, sides[::-1]):
+                x, y = strip(x), strip(y)
+                if isinstance(x, dict) and x.get("k") == "call" and on_text(x.get("recv"), var):
+                    a = x.get("args", [])
+                    if x.get("name") == "substr" and len(a) == 2 and number(a[0]) == 0 and literal(y) is not None and \
+                            number(a[1]) == len(literal(y)):
+                        return len(literal(y))
+                    if x.get("name") == "compare" and len(a) >= 3 and number(a[0]) == 0 and number(y) == 0 and \
+                            literal(a[2]) is not None and number(a[1]) == len(literal(a[2])):
+                        return len(literal(a[2]))
+                    if x.get("name") == "rfind" and len(a) >= 2 and number(a[1]) == 0 and number(y) == 0 and \
+                            literal(a[0]) is not None:
+                        return len(literal(a[0]))
+                    if x.get("name") == "find" and a and number(y) == 0 and literal(a[0]) is not None and \
+                            (len(a) == 1 or number(a[1]) == 0 or a[1].get("k") == "defarg"):
+                        return len(literal(a[0]))
+        if c.get("k") == "call" and c.get("name") == "starts_with" and on_text(c.get("recv"), var) and c.get("args") and \
+                literal(c["args"][0]) is not None:
+            return len(literal(c["args"][0]))
+        if c.get("k") == "bin" and c.get("op") == "&&":
+            for z in (c["lhs"], c["rhs"]):
+                r = prefix_test(z, var)
+                if r is not None:
+                    return r
+        return None
+    n = 0
+    for var in tparams:
+        def is_mut(nd):
+            if nd.get("k") == "call" and nd.get("name") in _STR_MUTATORS and on_text(nd.get("recv"), var):
+                return True
+            if nd.get("k") == "bin" and nd.get("op", "").endswith("=") and nd.get("op") not in ("==", "!=", "<=", ">=") and \
+                    on_text(nd.get("lhs"), var):
+                return True
+            return False
+        for site, conds in sites_with_conditions(fn["body"], is_mut):
+            n += 1
+            plen = None
+            for c, t in conds:
+                if t:
+                    plen = prefix_test(c, var) if plen is None else plen
+            removed = None
+            if site.get("name") == "erase" and len(site.get("args", [])) >= 2 and number(site["args"][0]) == 0:
+                removed = number(site["args"][1])
+            elif site.get("name") == "operator=" and site.get("args"):
+                src = strip(site["args"][0])
+                if isinstance(src, dict) and src.get("k") == "call" and src.get("name") == "substr" and \
+                        on_text(src.get("recv"), var) and src.get("args"):
+                    removed = number(src["args"][0])
+            ok = plen is not None and (removed is None or removed == plen)
+            chk.ob(rid, "label|%s@%s" % (site.get("name") or site.get("op"), var), ok,
+                   "XMLWriter::label modifies the label text (%s) %s: labels that merely contain the text elsewhere, or "
+                   "differ in length, are written with their head cut off or otherwise altered" %
+                   (short(site)[:60], "without a test that the removed text is a prefix of it" if plen is None else
+                    "removing %s characters after testing a prefix of %s" % (removed, plen)),
+                   "%s:%s" % (fn["file"], site.get("l")), sample="label: %s under a prefix test of length %s" %
+                   (short(site)[:40], plen))
+    if not tparams:
+        raise AnalysisBroken("XMLWriter::label has no text parameter")
+    chk.analysed[rid] = {"text_parameters": tparams, "modification_sites": n}
